@@ -104,3 +104,15 @@ impl<'a> PatternGenerator<'a> {
         self.random.next_int_range(lower, upper) as u8
     }
 }
+
+/// Verification hooks (`--cfg rosu_pp_verif`): PRNG state and conversion difficulty.
+#[cfg(rosu_pp_verif)]
+impl PatternGenerator<'_> {
+    pub fn verif_rng(&self) -> [u32; 4] {
+        self.random.verif_state()
+    }
+
+    pub fn verif_conversion_difficulty(&self) -> f64 {
+        self.conversion_difficulty()
+    }
+}
